@@ -214,6 +214,17 @@ Accepts(cfg, sys, r) ==
 Results(cfg, sys, r) ==
     {IF ok THEN [code |-> 200, cfg |-> Merge(cfg, r)] ELSE [code |-> 400, cfg |-> cfg] : ok \in Accepts(cfg, sys, r)}
 
+\* ---------------------------------------------------- test_upstream_dns
+\* POST /control/test_upstream_dns (openapi: "Status of testing each
+\* requested server, with "OK" meaning that server works, any other text
+\* means an error"): every server named by a line of the three lists is
+\* reported, "OK" iff it responds; every invalid line is reported with an
+\* error; nothing is stored.
+NamedAll(l) == l.gen \cup UNION {s.v : s \in l.secs}
+TestOut(r, down) ==
+    LET N == NamedAll(r.up) \cup NamedAll(r.fb) \cup NamedAll(r.ptr) IN
+    [ok |-> N \ down, notok |-> N \cap down, parse |-> {f \in {"up", "fb", "ptr"} : r[f].bad # "ok"}]
+
 \* A stored configuration is always a valid one.
 CfgValid(cfg, sys) ==
     /\ cfg.up.bad = "ok" /\ cfg.up.gen # {}
